@@ -125,7 +125,10 @@ def build(cfg, rnd):
         a = off[big]; mask = np.array([[False, True], [True, False]])
         mf = {"block": big, "is_array": True, "symmetric": True, "eliminates_degenerate": False}
         if feature == "fd-asymmetric": mask = np.array([[False, True], [False, False]]); mf["symmetric"] = False
-        if feature == "fd-degenerate": H0[a + 1, a + 1] = H0[a, a]; mf["eliminates_degenerate"] = True
+        if feature == "fd-degenerate":
+            H0[a + 1, a + 1] = H0[a, a]; mf["eliminates_degenerate"] = True
+            if not herm and rnd.random() < 0.6:      # (no symmetry is asked of a mask in the non-Hermitian algorithm: one entry, on either side of the diagonal)
+                mask = np.array([[False, False], [True, False]]) if rnd.random() < 0.6 else np.array([[False, True], [False, False]]); mf["symmetric"] = False
         val = mask
         if feature == "fd-not-array": val = mask.tolist(); mf["is_array"] = False
         if feature == "fd-bare":
